@@ -58,6 +58,10 @@ WITNESSES = [
 ]
 
 
+SIMULATE_WITNESS = {"method": "Simulate: A = 5\nMark: b\nWait: 5s",
+                    "ops": [["user", "Start"], T, T, T, T, ["user", "Pause"], T, T]}
+
+
 def oracle(case: dict, recs: list[dict]) -> list[Failure]:
     """Replay of the hardware write log. `hw` = last value written per register (None before any write)."""
     from harness.runstate import SAFES, UCMDS
@@ -101,7 +105,12 @@ def oracle(case: dict, recs: list[dict]) -> list[Failure]:
             elif paused and not error_seen:
                 bad = [j for j, s in safe if vals[j] != s and j not in touched]
                 if bad:
-                    key = "unsafe-output-while-error-paused" if r["method_error"] else "unsafe-output-while-paused"
+                    if all(r["simulated"][j] for j in bad):
+                        key = "unsafe-output-while-paused-simulated-tag"
+                    elif r["method_error"]:
+                        key = "unsafe-output-while-error-paused"
+                    else:
+                        key = "unsafe-output-while-paused"
                     fail(key, i, f"write_batch {vals} while paused; user-commanded registers {sorted(touched)}")
             hw = list(vals)
         if prev is not None and r["run_id"] is not None and r["run_id"] != prev["run_id"]:
@@ -120,7 +129,10 @@ def oracle(case: dict, recs: list[dict]) -> list[Failure]:
                 fail("unsafe-after-stop", i, f"hardware image {hw}")
         if op[0] == "tick" and not (r["started"] and r["paused"]):
             touched = set()
-    return out[:1]
+    first: dict[str, Failure] = {}
+    for f in out:
+        first.setdefault(f.key, f)
+    return list(first.values())
 
 
 _ULINES = ["W0: 41,1", "W1: 42,1", "W2: 43,1", "L0: 51,3", "L0: 52,6", "L1: 53,4", "L1: 54,9", "L2: 55,5",
@@ -189,7 +201,7 @@ def gen_cases(ctx: Check) -> dict[str, list[dict]]:
     for method, prefix in [("L0: 55,9\nMark: b", [["user", "Start"], T, T, T]),
                            ("W1: 42,1\nPause: 0.5s\nL0: 52,6", [["user", "Start"], T, T]),
                            ("Mark: a", [])]:
-        for k in range(0, ctx.n(3, 4) + 1):
+        for k in range(0, (ctx.n(4, 5) if prefix and method.startswith("L0") else ctx.n(3, 4)) + 1):
             for seq in itertools.product(alpha, repeat=k):
                 ops = [list(o) for o in prefix] + [list(o) for o in seq]
                 # keep the documented scope: a user UOD command while no run is active is followed by a tick
@@ -220,7 +232,7 @@ def run(ctx: Check) -> int:
     scope_out = drive("RunStateOut", [runner.lines(c) for c in ex])
     streams["exhaustive"] = [c for c, m in zip(ex, scope_out) if in_scope(m)]
     ctx.count("exhaustive-out-of-scope", len(ex) - len(streams["exhaustive"]))
-    ctx.rule = ("exhaustive: all schedules <=3/4 over {Start, Stop, Pause, Unpause, Restart, user W0 (safe-valued "
+    ctx.rule = ("exhaustive: all schedules <=4/5 (9-tick command method) resp. <=3/4 over {Start, Stop, Pause, Unpause, Restart, user W0 (safe-valued "
                 "output, 1 tick), user L1 (3 ticks), tick} for a method with a 9-tick output command, a method with "
                 "short command + timed Pause + 6-tick command, and from engine start (minus schedules outside the "
                 "model's scope: user UOD command still executing after the next Start); sessions: adaptive random "
@@ -246,6 +258,11 @@ def run(ctx: Check) -> int:
                         ctx.count("method-uod:iters=" + it.split(":")[2])
         all_mout += mout
         all_cases += cases
+    # recorded finding outside the model: an output tag under Simulate keeps its simulated value while paused
+    _, _, srecs = R.execute(SIMULATE_WITNESS, "c09", {})
+    for f in oracle(SIMULATE_WITNESS, srecs):
+        if f.key == "unsafe-output-while-paused-simulated-tag":
+            ctx.fail(f)
     if all_mout and len(all_mout) == len(all_cases):
         def mutant(c):
             ls = list(runner.lines(c))
